@@ -148,6 +148,7 @@ def vm_cross_check(buf_file, limit=400):
     os.makedirs(os.path.join(WORK, "vm"), exist_ok=True)
     path = os.path.join(WORK, "vm", "BufferCases.v")
     open(path, "w").write(src)
+    build_coq_target("Model/BufferPtr.vo")
     rc, out = sh("coqc -Q %s GB %s" % (COQ, path), cwd=os.path.join(WORK, "vm"), timeout=600)
     ok = rc == 0 and re.search(r"all_ok\s*=\s*true", out) is not None
     return ok, len(sample), out[-400:]
@@ -196,8 +197,10 @@ def vm_lease_check(lease_file, limit=100000):
             k = "CProvision (%s)" % ecode(c["outs"][0])
         elif c["kind"] == "lease":
             k = "CLease %d (%s)" % (c["index"], ecode(c["outs"][0]))
-        else:
+        elif c["kind"] == "create":
             k = "CCreate %s %d [%s]" % ("V1" if c["gen"] == 1 else "V2", c["n"], "; ".join(ecode(o) for o in c["outs"]))
+        else:
+            continue
         lines.append("(%s, [%s], %d%%Z, %d%%nat)" % (k, "; ".join(ev(e) for e in c["evs"]), c["ret"], c["calls"]))
     src = ("From Coq Require Import List ZArith Bool Arith.\nFrom GB Require Import Model.Allowance Model.Batcher Model.Lease Replay.LeaseCases.\nImport ListNotations.\n"
            "Definition cases : list (lcase * list levent * Z * nat) := [\n" + ";\n".join(lines) + "\n].\n"
@@ -206,6 +209,7 @@ def vm_lease_check(lease_file, limit=100000):
     os.makedirs(os.path.join(WORK, "vm"), exist_ok=True)
     path = os.path.join(WORK, "vm", "LeaseCasesRun.v")
     open(path, "w").write(src)
+    build_coq_target("Replay/LeaseCases.vo")
     rc, out = sh("coqc -Q %s GB %s" % (COQ, path), cwd=os.path.join(WORK, "vm"), timeout=900)
     ok = rc == 0 and re.search(r"all_ok\s*=\s*true", out) is not None
     return ok, len(lines), out[-400:]
